@@ -51,6 +51,7 @@ type httpPhase struct {
 	Requests []httpReq `json:"requests"`
 	Main     []string  `json:"main"`
 	Pre      string    `json:"pre"` // evaluated in the global scope before the server starts (variables the handlers read)
+	Scoped   bool      `json:"scoped"` // the script's top level is a scope of its own (an imported module, a file run by `pangaea test`): Pre and Main are evaluated there
 	Clients  int       `json:"clients"`
 	Blocking bool      `json:"blocking"` // the script calls the blocking serve: it is evaluated on a goroutine of its own and never returns
 }
@@ -61,6 +62,7 @@ type req struct {
 	Rounds []round    `json:"rounds"`
 	HTTP   *httpPhase `json:"http"`
 	HTTP2  *httpPhase `json:"http2"`
+	HTTP3  *httpPhase `json:"http3"`
 }
 
 type httpRes struct {
@@ -82,6 +84,7 @@ type resp struct {
 	Rounds []roundRes `json:"rounds"`
 	HTTP   *httpRes   `json:"http,omitempty"`
 	HTTP2  *httpRes   `json:"http2,omitempty"`
+	HTTP3  *httpRes   `json:"http3,omitempty"`
 }
 
 func evalIn(env *object.Env, src string) (out string) {
@@ -134,10 +137,14 @@ func runHTTP(global *object.Env, h *httpPhase) *httpRes {
 	}
 	port := l.Addr().(*net.TCPAddr).Port
 	l.Close()
-	if h.Pre != "" {
-		evalIn(global, h.Pre)
-	}
 	env := object.NewEnclosedEnv(global)
+	mainEnv := global
+	if h.Scoped {
+		mainEnv = env
+	}
+	if h.Pre != "" {
+		evalIn(mainEnv, h.Pre)
+	}
 	if h.Blocking {
 		go evalIn(env, strings.ReplaceAll(h.Script, "@PORT@", strconv.Itoa(port)))
 		out.Start = "val:blocking"
@@ -181,7 +188,7 @@ func runHTTP(global *object.Env, h *httpPhase) *httpRes {
 	}
 	close(start)
 	for _, src := range h.Main { // the main script goes on while the handlers run: like `pangaea script`, directly in the global scope
-		out.Main = append(out.Main, evalIn(global, src))
+		out.Main = append(out.Main, evalIn(mainEnv, src))
 	}
 	wg.Wait()
 	client := &http.Client{Timeout: 20 * time.Second}
@@ -284,6 +291,9 @@ func main() {
 	}
 	if rq.HTTP != nil {
 		rs.HTTP = runHTTP(global, rq.HTTP)
+	}
+	if rq.HTTP3 != nil {
+		rs.HTTP3 = runHTTP(global, rq.HTTP3)
 	}
 	if rq.HTTP2 != nil {
 		rs.HTTP2 = runHTTP(global, rq.HTTP2)
